@@ -33,10 +33,14 @@ package grandpa
 //          pc v<i>             honest voter i runs the precommit gate and, if it passes, precommits (allocates an id)
 //          bv <pv|pc> v<j> [s<t>] r<q> b<k>   scripted key j (Byzantine, or not a member of set t) casts that vote for
 //                              round q of set t (default set 0)                               (allocates an id)
+//          pp v<i>             the primaryProposal message honest voter i gossiped in its current round (it is the
+//                              primary and has prevoted) becomes a message              (allocates an id)
 //          d m<id> v<i>        message <id> is delivered to honest voter i
 //          fin v<i>            honest voter i attempts to finalise its round
 //        thr <n>               State.threshold() of n voters (alone on a line)
 // output: one token per op joined by ';', then ';safe=<0|1>' (1: all blocks finalised by honest voters lie on one chain)
+//         and ';cnt=<i>:<prevotes>.<precommits>.<prevote equivocators>.<precommit equivocators>,..' (the vote maps of
+//         every honest Service at the end)   pp: ok|nopp
 //   best: ok|nobest (the block does not descend from the voter's finalised head)   pv: pv=b<k>|skip|done|pv=err   pc: pc=b<k>|wait|skip|done|pc=err|pc=panic   bv: ok
 //   d: ok|eq|round|set|notvoter|notdesc|self|nomsg|err   fin: fin=b<k>|no|skip|fin=err   chg: ok
 //   done: checkRoundCompletable said that the round is over (a block was finalised in a HIGHER round - the code compares
@@ -494,6 +498,25 @@ func (v *c22Voter) roundDone() (string, bool) {
 	return "done", true
 }
 
+// proposal returns the primaryProposal message the Service gossiped in its current round, if any.
+func (v *c22Voter) proposal() *VoteMessage {
+	vm := v.net.lastVote(primaryProposal)
+	if vm == nil || vm.Round != v.svc.state.round || vm.SetID != v.svc.state.setID {
+		return nil
+	}
+	return vm
+}
+
+func (v *c22Voter) counts() string {
+	n := func(m *sync.Map) int {
+		c := 0
+		m.Range(func(_, _ interface{}) bool { c++; return true })
+		return c
+	}
+	return fmt.Sprintf("%d:%d.%d.%d.%d", v.idx, n(v.svc.prevotes), n(v.svc.precommits),
+		len(v.svc.pvEquivocations), len(v.svc.pcEquivocations))
+}
+
 func (v *c22Voter) prevote() (string, *VoteMessage) {
 	if !v.member() {
 		return "notauth", nil
@@ -822,7 +845,7 @@ func c22Run(line string) string {
 			_, ok1 := honest(f[1])
 			_, ok2 := block(f[2])
 			ok = ok1 && ok2
-		case len(f) == 2 && (f[0] == "pv" || f[0] == "pc" || f[0] == "fin"):
+		case len(f) == 2 && (f[0] == "pv" || f[0] == "pc" || f[0] == "fin" || f[0] == "pp"):
 			_, ok = honest(f[1])
 		case len(f) == 3 && f[0] == "d":
 			id, ok1 := c22Tagged(f[1], 'm')
@@ -860,6 +883,15 @@ func c22Run(line string) string {
 			res, vm := vs[i].prevote()
 			msgs = append(msgs, vm)
 			out = append(out, res)
+		case "pp":
+			i, _ := honest(f[1])
+			vm := vs[i].proposal()
+			msgs = append(msgs, vm)
+			if vm == nil {
+				out = append(out, "nopp")
+			} else {
+				out = append(out, "ok")
+			}
 		case "pc":
 			i, _ := honest(f[1])
 			res, vm := vs[i].precommit()
@@ -916,6 +948,13 @@ func c22Run(line string) string {
 		}
 	}
 	out = append(out, "safe="+strconv.Itoa(safe))
+	var cnts []string
+	for _, v := range vs {
+		if v != nil {
+			cnts = append(cnts, v.counts())
+		}
+	}
+	out = append(out, "cnt="+strings.Join(cnts, ","))
 	return strings.Join(out, ";")
 }
 
